@@ -183,6 +183,19 @@ def _c20():
         defN("hashlen_%s" % name, ln)
         lines.append("Definition hash_display_backward_%s : bool := %s." % (name, "true" if d_back else "false"))
         lines.append("Definition hash_parse_backward_%s : bool := %s." % (name, "true" if p_back else "false"))
+    # serde of the hash_newtype! types comes from impl_serde_for_newtype! (same direction constant as Display); the midstate wrappers
+    # serialize through sha256d::Hash instead (Model/Serde.v ser_midstate)
+    serded = set()
+    for rel in ("hash_types.rs", "issuance.rs", "taproot.rs"):
+        for m in re.finditer(r"impl_serde_for_newtype!\(([^)]*)\)", strip_comments(src(rel))):
+            serded |= {x.strip() for x in m.group(1).split(",") if x.strip()}
+    lines.append("Definition hash_serde_table : list (list byte * (N * (bool * bool))) := [%s]." %
+                 "; ".join("(%s, (%d, (%s, %s)))" % (blist(n), ln, "true" if d else "false", "true" if p else "false") for n, ln, d, p in rows if n in serded))
+    b = body_after(strip_comments(src("internal_macros.rs")), r"macro_rules!\s+impl_sha256_midstate_wrapper\s*\{", "macro impl_sha256_midstate_wrapper")
+    if b is not None and (b.count("crate::hashes::sha256d::Hash::from_byte_array(self.to_byte_array()).serialize(serializer)") != 1 or
+                          b.count("crate::hashes::sha256d::Hash::deserialize(deserializer)?") != 1):
+        errors.append("impl_sha256_midstate_wrapper no longer (de)serializes through sha256d::Hash")
+    lines.append("Definition midstate_wrapper_names : list (list byte) := [%s]." % "; ".join(blist(n) for n, ln, d, p in rows if n not in hexed))
     lines.append("Definition hash_text_table : list (list byte * (N * (bool * bool))) := [%s]." %
                  "; ".join("(%s, (%d, (%s, %s)))" % (blist(n), ln, "true" if d else "false", "true" if p else "false") for n, ln, d, p in rows))
     # ---- blinding factors
